@@ -197,7 +197,8 @@ Record mt_post (em : list N) (payload : list N) (s : st) (x : io) (s' : st) (x' 
   mp_inv : inv s' /\ all_ok2 (oracle s') /\ Forall tclean (oracle s') /\ clean s';
   mp_pos : input_pos s' = input_pos s;
   mp_cfg : same_cfg s s';
-  mp_end : meta_end payload s'
+  mp_end : meta_end payload s';
+  mp_quiet : quiet s -> consumed = [] /\ quiet s'
 }.
 
 Lemma meta_head payload : forall fuel s x s' x' em,
@@ -219,7 +220,7 @@ Proof.
                     (wadd64 (total_out_ s) n)) with (pushk s n) in Hrun.
     destruct (IH (pushk s n) (io_push x (takeN n (view s)) (wadd64 (total_out_ s) n)) s' x' em
                  (inv_pushk s n Hi Hn) Hok Htc Hcl Hst Hrem Hoff Hlen H24 Hb Hrun Hai) as (segs & consumed & T).
-    destruct T as [T1 T2 T3 T4 T5 T6 T7 T8 T9 T10].
+    destruct T as [T1 T2 T3 T4 T5 T6 T7 T8 T9 T10 T11].
     exists segs, consumed. constructor; try assumption.
     intros K. rewrite (T4 K). f_equal. cbn [produced io_push]. rewrite app_assoc.
     apply wire_push; [destruct Hi as [Hc _]; exact Hc|exact Hn].
@@ -239,7 +240,7 @@ Proof.
         assert (Htc2 : Forall tclean (oracle s2)) by (rewrite O2; exact (proj2 Hta)).
         destruct (IH s2 x s' x' em Hi2 Hok2 Htc2 Hcl2 ltac:(rewrite Hst2; exact Hst) ltac:(rewrite M1; exact Hrem) Hoff Hlen H24 Hb Hrun Hai)
           as (segs & consumed & T).
-        destruct T as [T1 T2 T3 T4 T5 T6 T7 T8 T9 T10].
+        destruct T as [T1 T2 T3 T4 T5 T6 T7 T8 T9 T10 T11].
         rewrite O2 in T1. rewrite Q2, Q3 in T2, T3. rewrite O8 in T5, T8.
         exists (SAns (last_bytes s) (last_bytes_bits s) a :: segs), (a :: consumed). constructor.
         -- rewrite O1, T1. reflexivity.
@@ -257,6 +258,7 @@ Proof.
         -- exact T8.
         -- eapply same_cfg_trans; [eapply same_cfg_encode; exact Eenc|exact T9].
         -- exact T10.
+        -- intros Hq. unfold quiet in Hq. rewrite Hq in Cq. discriminate Cq.
       * (* the header, then the payload *)
         rewrite Hst in Hrun. cbn [sstate_eqb] in Hrun.
         assert (Hn24 : rem_meta s <= 2 ^ 24) by (rewrite Hrem; exact H24).
@@ -278,6 +280,7 @@ Proof.
         -- rewrite Hp', Hp1. reflexivity.
         -- eapply same_cfg_trans; [exact Hc1|exact Hc'].
         -- destruct He as [[E1 E2]|[E1 E2]]; [left; split; assumption|right; left; repeat split; assumption].
+        -- intros _. split; [reflexivity|exact Hq'].
     + (* output pending and no room: the call returns before the header *)
       inversion Hrun; subst s' x'; clear Hrun.
       exists [], []. constructor.
@@ -291,4 +294,5 @@ Proof.
       * reflexivity.
       * apply same_cfg_refl.
       * right. right. split; [exact Hst|]. split; [lia|]. apply lenN_0_nil. lia.
+      * intros Hq. split; [reflexivity|exact Hq].
 Qed.
